@@ -47,8 +47,68 @@ def linear(e: ast.AST) -> dict[str, int] | None:
     return None
 
 
+def _regex_group_pieces(fn: ast.FunctionDef) -> list[str]:
+    """[first piece, last piece] from `a, b = m.groups()` where m is the match of a compiled pattern (a class /
+    module constant `re.compile('<literal>')`) that has exactly two capture groups, each made of decimal
+    digits only (`\\d*` / `\\d+` / `[0-9]*`) with a literal `-` between them: the pieces are what
+    `x.split('-')` gives for a well-formed range"""
+    import re as _re
+    try:
+        from re import _parser as _sre            # Python >= 3.11
+    except ImportError:                           # pragma: no cover
+        import sre_parse as _sre
+    mod = fn
+    while getattr(mod, '_parent', None) is not None:
+        mod = mod._parent
+    consts: dict[str, str] = {}
+    for n in ast.walk(mod):
+        if isinstance(n, (ast.Assign, ast.AnnAssign)) and getattr(n, 'value', None) is not None \
+                and isinstance(n.value, ast.Call) and (call_name(n.value) or '') in ('re.compile', 'compile') \
+                and n.value.args and isinstance(n.value.args[0], ast.Constant) and isinstance(n.value.args[0].value, str):
+            tg = n.targets[0] if isinstance(n, ast.Assign) else n.target
+            if isinstance(tg, ast.Name):
+                consts[tg.id] = n.value.args[0].value
+    for n in ast.walk(fn):
+        if not (isinstance(n, ast.Assign) and len(n.targets) == 1 and isinstance(n.targets[0], ast.Tuple)
+                and len(n.targets[0].elts) == 2 and all(isinstance(e, ast.Name) for e in n.targets[0].elts)
+                and isinstance(n.value, ast.Call) and isinstance(n.value.func, ast.Attribute)
+                and n.value.func.attr == 'groups' and not n.value.args and isinstance(n.value.func.value, ast.Name)):
+            continue
+        mname = n.value.func.value.id
+        mdefs = [a.value for a in ast.walk(fn) if isinstance(a, (ast.Assign, ast.AnnAssign)) and getattr(a, 'value', None) is not None
+                 and norm(a.targets[0] if isinstance(a, ast.Assign) else a.target) == mname]
+        if len(mdefs) != 1 or not (isinstance(mdefs[0], ast.Call) and isinstance(mdefs[0].func, ast.Attribute)
+                                   and mdefs[0].func.attr in ('match', 'fullmatch')):
+            continue
+        pat_ref = mdefs[0].func.value
+        pname = pat_ref.attr if isinstance(pat_ref, ast.Attribute) else (pat_ref.id if isinstance(pat_ref, ast.Name) else None)
+        pattern = consts.get(pname or '')
+        if pattern is None:
+            continue
+        try:
+            parsed = _sre.parse(pattern)
+        except Exception:       # noqa: BLE001
+            continue
+        groups = [it for it in parsed if str(it[0]) == 'SUBPATTERN']
+
+        def digits_only(sub) -> bool:
+            items = list(sub[1][3])
+            if len(items) != 1 or str(items[0][0]) not in ('MAX_REPEAT', 'MIN_REPEAT'):
+                return False
+            inner = list(items[0][1][2])
+            if len(inner) != 1 or str(inner[0][0]) != 'IN':
+                return False
+            cls_ = inner[0][1]
+            return all((str(c[0]) == 'CATEGORY' and str(c[1]) == 'CATEGORY_DIGIT')
+                       or (str(c[0]) == 'RANGE' and c[1] == (ord('0'), ord('9'))) for c in cls_)
+        has_dash = any(str(it[0]) == 'LITERAL' and it[1] == ord('-') for it in parsed)
+        if len(groups) == 2 and all(digits_only(g_) for g_ in groups) and has_dash:
+            return [e.id for e in n.targets[0].elts]
+    return []
+
+
 def _split_pieces(fn: ast.FunctionDef) -> set[str]:
-    out: set[str] = set()
+    out: set[str] = set(_regex_group_pieces(fn))
     for n in ast.walk(fn):
         if isinstance(n, ast.Assign) and isinstance(n.value, ast.Call) \
                 and isinstance(n.value.func, ast.Attribute) \
@@ -63,6 +123,9 @@ def _split_pieces(fn: ast.FunctionDef) -> set[str]:
 
 def _piece_order(fn: ast.FunctionDef) -> list[str]:
     """[first-byte-pos piece, last-byte-pos piece] from `a, b = x.split('-')`"""
+    rg = _regex_group_pieces(fn)
+    if rg:
+        return rg
     for n in ast.walk(fn):
         if isinstance(n, ast.Assign) and isinstance(n.value, ast.Call) \
                 and isinstance(n.value.func, ast.Attribute) and n.value.func.attr in ('split', 'rsplit') \
